@@ -17,10 +17,11 @@ EXPLANATION = (
     "determines kept behaviour, and never passes an attribute that may be None into a constructor that asserts its type; "
     "S5 no object reachable from the Tuner stores a generator or open file in an attribute (dill); S6 model parameters "
     "round-trip by name: get_params/set_params of every kernel/mean/likelihood/warping class use the same key templates and "
-    "delegate to the same components. NOT decided: equality of continuation traces at run time; numeric restoration of GP "
+    "delegate to the same components; S7 state coverage - every attribute the constructor initialises and a decision method "
+    "mutates is written by get_state (under a guard only if every mutation site implies that guard) or is a listed transient. NOT decided: equality of continuation traces at run time; numeric restoration of GP "
     "parameters.")
 
-FLOOR = {"S1": 5, "S2": 1, "S3": 1, "S4": 6, "S5": 1, "S6": 8}
+FLOOR = {"S1": 5, "S2": 1, "S3": 1, "S4": 6, "S5": 1, "S6": 8, "S7": 4}
 
 SEARCHER_BASE = "BaseSearcher"
 
@@ -690,3 +691,156 @@ def run(ctx, rep, tier="quick"):
     s4(ctx, rep, sweep)
     s5(ctx, rep)
     s6(ctx, rep)
+    s7(ctx, rep, sweep)
+
+
+# ----------------------------------------------------------------------------- S7 state coverage
+TRANSIENT = {
+    # attribute -> reason it need not be part of the state (confirmed by reading)
+    "_rc_returned_pos": "scratch set filled and emptied again inside one get_config call; re-created empty by _restore_from_state",
+    "_random_searcher": "internal helper re-created on demand; shares random_state (which is in the state)",
+    "random_state": "restored through set_state(state['random_state'])",
+    "state_transformer": "rebuilt by clone_from_state from state['state'] / state['model_params'] / state['skip_optimization']",
+    "_debug_log": "logging only",
+    "debug_log": "logging only",
+    "cumulative_get_config_time": "profiling counter, never read by a decision",
+    "cumulative_profile_record": "profiling only",
+    "_excl_list": None,  # NOT transient: listed to document that it must be covered by the state
+}
+
+
+def _mutations(ctx, cls, skip=("__init__", "_restore_from_state", "clone_from_state", "get_state", "_create_internal",
+                               "configure_scheduler", "set_random_state", "_call_create_internal", "set_params")):
+    """{attr: [(method, node, facts)]} for self.<attr> mutated (container mutator call, subscript store, re-assignment)
+    in methods of cls's MRO other than construction/restore."""
+    from ..core.facts import MUTATORS
+    P = ctx.P
+    out = {}
+    seen = set()
+    for k in P.mro(cls):
+        for name, m in k.methods.items():
+            if name in skip or name in seen:
+                continue
+            seen.add(name)
+            cfg = cfg_of(m)
+            for n in cfg.nodes:
+                hits = []
+                if n.kind == "stmt" and isinstance(n.ast, (ast.Assign, ast.AugAssign, ast.Delete)):
+                    tg = n.ast.targets if isinstance(n.ast, (ast.Assign, ast.Delete)) else [n.ast.target]
+                    for t in tg:
+                        b = t
+                        while isinstance(b, ast.Subscript):
+                            b = b.value
+                        if isinstance(b, ast.Attribute) and isinstance(b.value, ast.Name) and b.value.id == "self":
+                            hits.append(b.attr)
+                for x in cfg.node_walk(n.id):
+                    if isinstance(x, ast.Call) and isinstance(x.func, ast.Attribute) and x.func.attr in MUTATORS:
+                        b = x.func.value
+                        while isinstance(b, ast.Subscript):
+                            b = b.value
+                        if isinstance(b, ast.Attribute) and isinstance(b.value, ast.Name) and b.value.id == "self":
+                            hits.append(b.attr)
+                for a in hits:
+                    out.setdefault(a, []).append((m, n, ctx.facts(m).at(n.id)))
+    return out
+
+
+def _state_sources(ctx, cls):
+    """{attr: guards} for attributes whose value get_state (super chain) writes."""
+    P = ctx.P
+    out = {}
+    for k in P.mro(cls):
+        f = k.methods.get("get_state")
+        if f is None:
+            continue
+        for x in walk_shallow(f.node):
+            if isinstance(x, ast.Attribute) and isinstance(x.value, ast.Name) and x.value.id == "self" and isinstance(x.ctx, ast.Load):
+                st = x
+                while st is not None and not isinstance(st, ast.stmt):
+                    st = getattr(st, "_parent", None)
+                if isinstance(st, ast.If) or st is None:
+                    continue  # appears in a guard, not in a written value
+                if isinstance(getattr(x, "_parent", None), ast.Call) and getattr(x, "_parent").func is x:
+                    continue  # method call on self
+                g = _guards_of(st, f.node)
+                if x.attr not in out or not g:
+                    out[x.attr] = g
+    return out
+
+
+def s7(ctx, rep, sweep=False):
+    from ..core.facts import atoms_of, parse_cond
+    P = ctx.P
+    n = 0
+    for cname in PROPERTY_SEARCHERS:
+        c = P.cls(cname)
+        init_attrs = set()
+        for k in P.mro(c):
+            i = k.methods.get("__init__")
+            if i is None:
+                continue
+            for m in _methods_reached_from(ctx, c, i, depth=2):
+                for x in walk_shallow(m.node):
+                    if isinstance(x, ast.Assign):
+                        for t in x.targets:
+                            if isinstance(t, ast.Attribute) and isinstance(t.value, ast.Name) and t.value.id == "self":
+                                init_attrs.add(t.attr)
+        muts = _mutations(ctx, c)
+        # methods only ever called while constructing are construction helpers, not decision methods
+        ctor_only = set()
+        for k in P.mro(c):
+            i = k.methods.get("__init__")
+            if i is not None:
+                for m in _methods_reached_from(ctx, c, i, depth=3):
+                    ctor_only.add(m)
+        called_elsewhere = set()
+        for k in P.mro(c):
+            for g_ in k.methods.values():
+                if g_ in ctor_only:
+                    continue
+                for x in walk_shallow(g_.node):
+                    if isinstance(x, ast.Call) and isinstance(x.func, ast.Attribute) and U(x.func.value) == "self":
+                        called_elsewhere.add(x.func.attr)
+        for a_ in list(muts):
+            muts[a_] = [(m, nd, fa) for m, nd, fa in muts[a_] if not (m in ctor_only and m.name not in called_elsewhere)]
+            if not muts[a_]:
+                del muts[a_]
+        srcs = _state_sources(ctx, c)
+        for attr in sorted(set(muts) & init_attrs):
+            if TRANSIENT.get(attr):
+                continue
+            n += 1
+            construct = f"{cname}: mutable attribute `{attr}` is covered by get_state"
+            if attr not in srcs:
+                rep.bad("S7", "state_coverage", construct, c, None,
+                        f"`{attr}` is initialised by the constructor, mutated by {sorted({m.short for m, _, _ in muts[attr]})[:3]}, "
+                        "but get_state does not write it and it is not in the table of transients: a restored searcher continues "
+                        "with the freshly constructed value")
+                continue
+            guards = srcs[attr]
+            if not guards:
+                rep.ok("S7", "state_coverage", construct, c, None, "written unconditionally")
+                continue
+            need = set()
+            for g in guards:
+                neg = g.startswith("not (")
+                e = parse_cond(g[5:-1] if neg else g)
+                need |= atoms_of(e, not neg)
+            bad = []
+            for m, nd, facts in muts[attr]:
+                if all(a in facts for a in need):
+                    continue
+                # guard established by every caller (self-call sites within the class hierarchy)
+                callers = []
+                for k in P.mro(c):
+                    for g_ in k.methods.values():
+                        for nid_, call_ in ctx.calls_in(g_, selfcall=m.name):
+                            callers.append((g_, nid_))
+                if callers and all(all(a in ctx.facts(g_).at(nid_) for a in need) for g_, nid_ in callers):
+                    continue
+                bad.append((m, nd))
+            rep.put(not bad, "S7", "state_coverage", construct, c, None, f"written under {guards}; every mutation site implies it",
+                    f"get_state writes `{attr}` only under {guards}, but {bad[0][0].short if bad else ''} (line "
+                    f"{bad[0][1].lineno if bad else 0}) mutates it when that condition need not hold: what was recorded there "
+                    "(e.g. the configurations of failed trials) is lost on restore")
+    return n
